@@ -249,7 +249,12 @@ func textOf(raw []byte) (string, bool) {
 
 // c14Run pushes one history through the real refresh loop and compares the routing table.
 func c14Run(hist []int, alpha []c14msg) (sig, msg, state string) {
-	sc := &world.Scenario{Nodes: nil, NoBootTick: true, Horizon: 50, Name: "C14/history"}
+	// INFO probes of newly discovered nodes travel through the proxy's REAL redis client over an in-memory connection;
+	// what the node reports is c14Info's business; every reply arrives in pieces of 7 bytes on every second history
+	sc := &world.Scenario{Nodes: nil, NoBootTick: true, Horizon: 50, Name: "C14/history", Info: c14Info}
+	if len(hist)%2 == 0 {
+		sc.ProbePiece = 7
+	}
 	var barrier chan string
 	var verdict *world.Violation
 	kill := false
@@ -493,7 +498,10 @@ func c14Perms() []c14msg {
 
 func c14Seq(tier string, shard, n int, deadline time.Time, res *Result) {
 	for i, t := range c14Perms() {
-		if i%n != shard {
+		if tier != "thorough" && i%3 != 0 {
+			continue // quick tier: every third of the 720 orders (each line still occurs at every position)
+		}
+		if (i/3)%n != shard {
 			continue
 		}
 		sig, msg, _ := c14Run([]int{0}, []c14msg{t})
